@@ -1,6 +1,8 @@
 import PqModel.MergeProgress
 import PqModel.MergeAbstract
 import PqModel.MergeRanges
+import PqModel.MergeRefinePlan
+import PqModel.MergeZero
 
 /-! # C09 — Merging sorted row groups yields a sorted, complete, per-input-stable sequence
 
@@ -271,6 +273,185 @@ theorem nullable_key_ranges_overlap_after_fix :
     segmentsOf true true [[none, some 10], [some 3, some 4]] = [[(0, 2), (1, 2)]] ∧
     segmentsOf true false [[some 1, some 2], [some 3, none], [some 9, none]] = [[(0, 2)], [(1, 2), (2, 2)]] ∧
     segmentsOf true false [[some 1, some 2], [some 3, none], [none]] = [[(0, 2), (1, 2), (2, 1)]] := by decide
+
+/-! ## the comparator chain of compare.go, and C09 over an arbitrary lawful comparator -/
+
+section comparator
+open PqModel.Compare
+
+/-- the lexicographic combination of column comparators (compare.go:217-226, 478-503) is a total
+    preorder as soon as every column comparator is one -/
+theorem column_chain_lawful {ρ : Type} (cs : List (ρ → ρ → Int)) (h : ∀ c ∈ cs, Lawful c) : Lawful (cmpLex cs) :=
+  cmpLex_lawful cs h
+
+/-- `CompareDescending`, `CompareNullsFirst`, `CompareNullsLast` preserve the order laws -/
+theorem wrappers_lawful {α : Type} {c : α → α → Int} (h : Lawful c) :
+    Lawful (descending c) ∧ Lawful (nullsFirst c) ∧ Lawful (nullsLast c) :=
+  ⟨descending_lawful h, nullsFirst_lawful h, nullsLast_lawful h⟩
+
+/-- the comparator `compareRowsFuncOf` builds for any list of sorting columns (ascending or descending,
+    nulls first or last, any number of columns) is a total preorder: reflexive, antisymmetric in sign,
+    transitive -/
+theorem cmpRows_total_preorder (specs : List ColSpec) : Lawful (cmpRows specs) := cmpRows_lawful specs
+
+example : cmpRows [⟨false, false⟩, ⟨true, true⟩] [some 1, none] [some 1, some 5] < 0 ∧
+    cmpRows [⟨false, false⟩, ⟨true, true⟩] [some 1, some 9] [some 1, some 5] < 0 ∧
+    cmpRows [⟨false, false⟩] [none] [some 5] > 0 := by decide
+
+/-- on the rows of a merge a lawful comparator is the order of integer ranks: this is what lets the
+    mirror run on ranks take exactly the decisions the code takes with `c` -/
+theorem comparator_is_rank_order {α : Type} {c : α → α → Int} (h : Lawful c) {L : List α} {a b : α}
+    (ha : a ∈ L) (hb : b ∈ L) :
+    (c a b < 0 ↔ rankIn c L a < rankIn c L b) ∧ (c a b = 0 ↔ rankIn c L a = rankIn c L b) ∧
+    (0 < c a b ↔ rankIn c L b < rankIn c L a) := rank_sign h ha hb
+
+/-- **C09 for an arbitrary lawful comparator** on any row type: for every number of inputs sorted by
+    `c`, refill pattern and sequence of positive batch sizes, the merged rows are sorted by `c`, are a
+    permutation of the union of the inputs, and each input's rows keep their order. Only `Lawful c` is
+    assumed. -/
+theorem merge_sorted_complete_stable_any_comparator {α : Type} [Inhabited α] {c : α → α → Int} (h : Lawful c)
+    (inputs : List (List α)) (refills : List (List Nat)) (batches : List Nat)
+    (hs : ∀ l ∈ inputs, l.Pairwise (fun a b => c a b ≤ 0)) (hpos : ∀ b ∈ batches, 1 ≤ b)
+    (hlen : inputs.flatten.length < batches.length) :
+    let out := mergeC c inputs refills batches
+    (out.map (orig inputs)).Pairwise (fun a b => c a b ≤ 0) ∧
+    (out.map (orig inputs)).Perm inputs.flatten ∧
+    ∀ (i : Nat) (l : List α), inputs[i]? = some l → ((out.filter (fun r => r.inp == i)).map (orig inputs)) = l :=
+  mergeC_sorted_complete_stable h inputs refills batches hs hpos hlen
+
+/-- instance: nullable, descending, multi-column integer keys with the comparator of compare.go -/
+theorem merge_sorted_complete_stable_compound_keys (specs : List ColSpec) (inputs : List (List KeyRow))
+    (refills : List (List Nat)) (batches : List Nat)
+    (hs : ∀ l ∈ inputs, l.Pairwise (fun a b => cmpRows specs a b ≤ 0)) (hpos : ∀ b ∈ batches, 1 ≤ b)
+    (hlen : inputs.flatten.length < batches.length) :
+    let out := mergeC (cmpRows specs) inputs refills batches
+    (out.map (orig inputs)).Pairwise (fun a b => cmpRows specs a b ≤ 0) ∧
+    (out.map (orig inputs)).Perm inputs.flatten ∧
+    ∀ (i : Nat) (l : List KeyRow), inputs[i]? = some l → ((out.filter (fun r => r.inp == i)).map (orig inputs)) = l :=
+  mergeC_sorted_complete_stable (cmpRows_lawful specs) inputs refills batches hs hpos hlen
+
+example : (∀ l ∈ [[[some 1, none], [some 1, some 5]], [[some 1, some 9], [none, some 0]]],
+      List.Pairwise (fun a b => cmpRows [⟨false, false⟩, ⟨true, true⟩] a b ≤ 0) (l : List KeyRow)) ∧
+    ((mergeC (cmpRows [⟨false, false⟩, ⟨true, true⟩]) [[[some 1, none], [some 1, some 5]], [[some 1, some 9], [none, some 0]]]
+        [] [3, 3, 3, 3, 3]).map (fun r => (r.inp, r.seq))) = [(0, 0), (1, 0), (0, 1), (1, 1)] := by decide
+
+/-- dedupe for an arbitrary lawful comparator: a subsequence with strictly increasing keys in which
+    every key occurs, whatever the batch boundaries -/
+theorem dedupe_one_row_per_key_any_comparator {α : Type} [Inhabited α] {c : α → α → Int} (h : Lawful c)
+    (L : List α) (hs : L.Pairwise (fun a b => c a b ≤ 0)) (batches : List (List Row))
+    (hb : batches.flatten = rankList c L 0 L) :
+    let out := (dedupeReader none batches).map (orig [L])
+    out.Sublist L ∧ out.Pairwise (fun a b => c a b < 0) ∧ ∀ x ∈ L, ∃ y ∈ out, c y x = 0 :=
+  dedupeC_one_row_per_key h L hs batches hb
+
+/-- segment plans for an arbitrary order and tagging of rows -/
+theorem refined_plan_is_merge_any_order {α : Type} {le : α → α → Prop} {tag : α → Nat} {k : Nat}
+    (segs : List (List (List α))) (outs : List (List α)) (h : PlanGoodBy le tag k segs outs) :
+    IsMergeBy le tag (joinSegmentsG k segs) outs.flatten := planBy_isMerge segs outs h
+
+end comparator
+
+/-! ## the planner of merge_refine.go: cuts and slices -/
+
+section planner
+open PqModel.Refine PqModel.Compare
+
+/-- `cutAbove`: every row at or after the cut has a first-column key strictly after the key's -/
+theorem cutAbove_is_conservative {desc : Bool} {t : Target} {vals : List Int} (h : PagesOk desc t vals)
+    (key : KeyRow) (kv : Int) (hk : key.getD 0 none = some kv) :
+    ∀ r, cutAbove desc t key ≤ r → r < t.numRows → ord desc kv < vals.getD r 0 :=
+  cutAbove_conservative h key kv hk
+
+/-- `cutBelow`: every row before the cut has a first-column key strictly before the key's -/
+theorem cutBelow_is_conservative {desc : Bool} {t : Target} {vals : List Int} (h : PagesOk desc t vals)
+    (key : KeyRow) (kv : Int) (hk : key.getD 0 none = some kv) :
+    ∀ r, r < cutBelow desc t key → vals.getD r 0 < ord desc kv :=
+  cutBelow_conservative h key kv hk
+
+/-- the page index of a two-page row group with rows 1,1,2 | 2,5 satisfies `PagesOk` -/
+example : PagesOk false
+    { idx := 0, numRows := 5, cols := [[⟨false, false, some 1, some 2⟩, ⟨false, false, some 2, some 5⟩]], firstRows := [0, 3] }
+    [1, 1, 2, 2, 5] := by
+  refine ⟨rfl, by decide, by decide, rfl, ?_, ?_⟩
+  · intro p hp
+    have : p = 0 ∨ p = 1 := by simp at hp; omega
+    rcases this with rfl | rfl <;> decide
+  · intro p r hp h1 h2
+    have : p = 0 ∨ p = 1 := by simp at hp; omega
+    rcases this with rfl | rfl
+    · have : r = 0 ∨ r = 1 ∨ r = 2 := by simp [pageEnd] at h2; omega
+      rcases this with rfl | rfl | rfl <;> decide
+    · have : r = 3 ∨ r = 4 := by simp [pageEnd] at h1 h2; omega
+      rcases this with rfl | rfl <;> decide
+
+/-- whatever the page statistics and keys, the plan of `refineSegment` cuts every row group into
+    consecutive parts from its first to its last row, at most one part per region -/
+theorem refineSegment_partitions_row_groups (strict : Bool) (specs : List ColSpec) (ts : List Refine.RG) (plan : List (List Part))
+    (h : refineSegment strict specs ts = some plan) :
+    (∀ i, i < ts.length → Refine.walk i 0 plan.flatten = some (numRowsOf ts i)) ∧
+    (∀ R ∈ plan, (R.map (·.index)).Nodup ∧ ∀ p ∈ R, p.index < ts.length) :=
+  refineSegment_partition strict specs ts plan h
+
+/-- read region after region, the slices give back every row group whole and in order -/
+theorem cuts_reassemble_row_groups {α : Type} (strict : Bool) (specs : List ColSpec) (ts : List Refine.RG) (plan : List (List Part))
+    (h : refineSegment strict specs ts = some plan) (rows : List (List α)) (hlen : rows.length = ts.length)
+    (hrows : ∀ i, i < ts.length → (rows.getD i []).length = numRowsOf ts i) :
+    joinSegmentsG ts.length (plan.map (slicesOf rows ts.length)) = rows :=
+  cuts_partition_rows strict specs ts plan h rows hlen hrows
+
+/-- `cuts_form_good_plan_partial`: with the partition and the conservative cuts proved, a refined plan
+    whose regions are key-ordered and individually merged is a merge of the whole row groups.
+    -- OPEN: cuts_form_good_plan (full): derive the key order of the regions (the `PlanGoodBy`
+    -- hypothesis) from the event sweep of `refineSegment` and `PagesOk`; the sweep invariant tying
+    -- `pendingLeftK` / `active` / cursors to the keys of the rows not yet planned is not proved; it is
+    -- covered by the L1 oracle and the plan L2 on compound-key multi-page files only. -/
+theorem cuts_form_good_plan_partial {α : Type} (strict : Bool) (specs : List ColSpec) (ts : List Refine.RG) (plan : List (List Part))
+    (h : refineSegment strict specs ts = some plan) (rows : List (List α)) (hlen : rows.length = ts.length)
+    (hrows : ∀ i, i < ts.length → (rows.getD i []).length = numRowsOf ts i)
+    (le : α → α → Prop) (tag : α → Nat) (outs : List (List α))
+    (hgood : PlanGoodBy le tag ts.length (plan.map (slicesOf rows ts.length)) outs) :
+    IsMergeBy le tag rows outs.flatten :=
+  Refine.cuts_form_good_plan_partial strict specs ts plan h rows hlen hrows le tag outs hgood
+
+/-- the hypothesis `refineSegment … = some plan` is satisfiable: two row groups of 3000 rows in 3 pages
+    each, overlapping in the middle page: the plan is slice / merged region / slice -/
+example : refineSegment false [⟨false, false⟩]
+    [{ t := { idx := 0, numRows := 3000, cols := [[⟨false, false, some 0, some 9⟩, ⟨false, false, some 10, some 19⟩, ⟨false, false, some 20, some 29⟩]],
+              firstRows := [0, 1200, 1800] }, lo := [some 0], hi := [some 29] },
+     { t := { idx := 1, numRows := 3000, cols := [[⟨false, false, some 20, some 29⟩, ⟨false, false, some 30, some 39⟩, ⟨false, false, some 40, some 49⟩]],
+              firstRows := [0, 600, 1800] }, lo := [some 20], hi := [some 49] }]
+    = some [[⟨0, 0, 1800⟩], [⟨0, 1800, 1200⟩, ⟨1, 0, 600⟩], [⟨1, 600, 2400⟩]] := by decide
+
+/-- FINDING (cut lookups ignore nulls in mixed pages): on the mirror of the code as it is
+    (`strict = false`) a row group `B` = 1774 rows, keys 43..1778 followed by 38 nulls (nulls last;
+    the last page holds values *and* nulls, so it is not a "null page") and a row group `A` = keys from
+    3544: the ranges overlap (`B`'s upper bound is null), but `cutBelow(3544)` only sees the non-null
+    bound 1778 of `B`'s last page and slices all of `B`, nulls included, in front of `A`, although
+    `B`'s last row sorts after `A`'s first. With pages holding nulls refused (`strict = true`, the
+    proposed fix) the two row groups go through the merge reader. Harness key
+    `nullable-key-cuts-ignore-nulls`. -/
+theorem cut_lookups_ignore_nulls_in_mixed_pages :
+    let B : Refine.RG := { t := { idx := 0, numRows := 1774, cols := [[⟨false, false, some 43, some 1000⟩, ⟨false, true, some 1001, some 1778⟩]],
+                                   firstRows := [0, 900] }, lo := [some 43], hi := [none] }
+    let A : Refine.RG := { t := { idx := 1, numRows := 2281, cols := [[⟨false, true, some 3544, some 5780⟩]], firstRows := [0] },
+                           lo := [some 3544], hi := [none] }
+    refineSegment false [⟨false, false⟩] [B, A] = some [[⟨0, 0, 1774⟩], [⟨1, 0, 2281⟩]] ∧
+    cmpRows [⟨false, false⟩] B.hi A.lo > 0 ∧
+    refineSegment true [⟨false, false⟩] [B, A] = none := by decide
+
+end planner
+
+/-! ## sources that answer `(0, nil)` (observation, outside the stated property)
+
+`bufferedRowReader.read` accepts `(0, nil)` as a refill; `head()` then returns the first row of the
+previous fill. On the as-is mirror (`MergeZero.lean`, refill entry `0` = a `(0, nil)` answer): inputs
+`1,3,5,7` (second read answers `(0, nil)`) and `2,4,6,8` give `1 2 3 1 4 5 6 7 8`: row `(0,0)` twice,
+out of order. The main theorems assume every successful source read delivers a row. -/
+
+theorem zero_row_read_reemits_stale_row :
+    (((M2Z.new (tagInputs [[1, 3, 5, 7], [2, 4, 6, 8]]).head! ((tagInputs [[1, 3, 5, 7], [2, 4, 6, 8]]).getD 1 [])
+        [2, 0, 2, 2] [2, 2, 2]).session [10, 10, 10, 10, 10, 10, 10, 10]).flatten.map (fun r => r.key))
+      = [1, 2, 3, 1, 4, 5, 6, 7, 8] := by decide
 
 /-! ## the abstract schedule theorems (MergeAbstract.lean) are instances of the above -/
 
